@@ -1,7 +1,8 @@
 (* C07 — comparison of rationals is the numeric order; NaN is unordered.  Property theorems only. *)
 From Coq Require Import List NArith ZArith QArith Bool.
 Import ListNotations.
-From HV Require Import Model.Big Model.Rat Proofs.RatBase Proofs.RatSpec Proofs.RatAll.
+From HV Require Import Model.Big Model.Rat Model.Parse Model.Exec Spec.Lang Proofs.RatBase Proofs.RatSpec Proofs.RatAll Proofs.ExecSpec Proofs.CoroSpec.
+From HV Require Proofs.CoroProofs.
 Open Scope Z_scope.
 
 Theorem C07_cmp : forall a b, wfn a -> wfn b ->
@@ -12,6 +13,17 @@ Print Assumptions C07_cmp.
 Theorem C07_nan_unordered : forall a b, is_nan a = true \/ is_nan b = true -> ncmp a b = None.
 Proof. exact ncmp_nan. Qed.
 Print Assumptions C07_nan_unordered.
+
+(* consequently, at program level (area::calc with a pop that yields v): a `?` node takes its left branch iff the popped
+   value is below the command's count, a `!` node iff it equals it; NaN always goes right ([vlt]/[veq] are false on NaN) *)
+Theorem C07_question_branch : forall v cnt l r s, wfn v -> (cnt < 2 ^ 63)%N ->
+  calc (Val 0 l r) cnt (ret v) s = calc (if vlt (vof v) cnt then l else r) cnt (ret v) s.
+Proof. exact CoroProofs.calc_question. Qed.
+Print Assumptions C07_question_branch.
+Theorem C07_bang_branch : forall v cnt l r s, wfn v -> (cnt < 2 ^ 63)%N ->
+  calc (Val 1 l r) cnt (ret v) s = calc (if veq (vof v) cnt then l else r) cnt (ret v) s.
+Proof. exact CoroProofs.calc_bang. Qed.
+Print Assumptions C07_bang_branch.
 
 (* the pinned tree (before fix ee4735c) compared up*down' with down*down': 5 vs 7 was Greater *)
 Theorem C07_cmp_pre_fix_refuted :
